@@ -1,3 +1,7 @@
 // C13: instantiations for T = double (decimal lattice with ulp neighbours, extreme values), N = 1,2
 #include <C13_impl.hpp>
-void c13::reg_double() { c13::reg_fp<double>(); }
+void c13::reg_double()
+{
+  c13::reg_fp<double>();
+  c13::reg_callbacks<double>(); // init_max / init_dim with counting, stream-like and throwing callbacks
+}
